@@ -17,8 +17,9 @@ const (
 )
 
 type Header struct {
-	Raw   string `json:"raw"`   // full line including terminator
-	Class string `json:"class"` // ct-ok | ct-foreign | ct-malformed | ct-grey | loc | loc-grey | noise
+	Raw     string `json:"raw"`   // full line including terminator
+	Class   string `json:"class"` // ct | ct-malformed | ct-grey | loc | loc-grey | noise
+	Essence string `json:"essence,omitempty"` // for class ct: the canonically written media type
 }
 
 type RespSpec struct {
@@ -46,7 +47,11 @@ func (s RespSpec) Bytes() []byte {
 }
 
 // Classify applies the statement to the spec. profile: "ap" (ActivityPub fetch) or "wf" (webfinger).
-func (s RespSpec) Classify() string {
+func (s RespSpec) Classify(profile string) string {
+	tolerated := toleratedAP
+	if profile == "wf" {
+		tolerated = toleratedWF
+	}
 	switch s.StatusClass {
 	case "garbage", "bad-code":
 		return MustReject
@@ -73,10 +78,18 @@ func (s RespSpec) Classify() string {
 	ok, foreign, malformed, grey := 0, 0, 0, 0
 	for _, h := range s.Headers {
 		switch h.Class {
-		case "ct-ok":
-			ok++
-		case "ct-foreign":
-			foreign++
+		case "ct":
+			isOK := false
+			for _, t := range tolerated {
+				if t == h.Essence {
+					isOK = true
+				}
+			}
+			if isOK {
+				ok++
+			} else {
+				foreign++
+			}
 		case "ct-malformed":
 			malformed++
 		case "ct-grey":
@@ -178,16 +191,10 @@ func Response(r *rand.Rand, o HTTPOpts) RespSpec {
 		case x < 45:
 			t := tolerated[r.Intn(len(tolerated))]
 			param := []string{"", "; charset=utf-8", `; profile="https://www.w3.org/ns/activitystreams"`, ";q=1"}[r.Intn(4)]
-			s.Headers = append(s.Headers, Header{Raw: "Content-Type: " + t + param + crlf(r), Class: "ct-ok"})
+			s.Headers = append(s.Headers, Header{Raw: "Content-Type: " + t + param + crlf(r), Class: "ct", Essence: t})
 		case x < 65:
 			t := []string{"text/html", "application/jsonx", "application/xml", "text/plain", "application/activity", "json/application", "application/x-json", "image/png", "application/jrd+json", "application/activity+json"}[r.Intn(10)]
-			cls := "ct-foreign"
-			for _, ok := range tolerated {
-				if ok == t {
-					cls = "ct-ok"
-				}
-			}
-			s.Headers = append(s.Headers, Header{Raw: "Content-Type: " + t + crlf(r), Class: cls})
+			s.Headers = append(s.Headers, Header{Raw: "Content-Type: " + t + crlf(r), Class: "ct", Essence: t})
 		case x < 75:
 			t := []string{"", "application", "/json", "application/", "json", ";charset=utf-8", "application /json", "*"}[r.Intn(8)]
 			s.Headers = append(s.Headers, Header{Raw: "Content-Type: " + t + crlf(r), Class: "ct-malformed"})
@@ -290,5 +297,5 @@ func OK(body string, profile string) RespSpec {
 		ct = "application/jrd+json"
 	}
 	return RespSpec{StatusLine: "HTTP/1.1 200 OK\r\n", StatusClass: "ok", Code: 200,
-		Headers: []Header{{Raw: "Content-Type: " + ct + "\r\n", Class: "ct-ok"}}, End: "\r\n", Body: body, BodyClass: "object"}
+		Headers: []Header{{Raw: "Content-Type: " + ct + "\r\n", Class: "ct", Essence: ct}}, End: "\r\n", Body: body, BodyClass: "object"}
 }
